@@ -13,12 +13,126 @@ Lemma unmtf_usteps limit : forall syms order run shift size acc,
   unmtf limit order run shift size acc syms =
   match usteps limit (order, run, shift, size, acc) syms with Ok u => ufinal limit u | Err e => Err e end.
 Proof.
-Abort.
+  induction syms as [|s r IH]; intros order run shift size acc.
+  - reflexivity.
+  - cbn [unmtf usteps ustep]. destruct (s <=? 1); [apply IH|].
+    destruct (limit <? size + run); [reflexivity|]. unfold mtf_front. cbn [snd]. apply IH.
+Qed.
 
 Lemma usteps_app limit : forall a b u,
   usteps limit u (a ++ b) = match usteps limit u a with Ok u' => usteps limit u' b | Err e => Err e end.
 Proof.
-Abort.
+  induction a as [|s a IH]; intros b u; [reflexivity|].
+  cbn [app usteps]. destruct (ustep limit u s); [apply IH|reflexivity].
+Qed.
+
+(* ---- lists ------------------------------------------------------------------------------------------------------ *)
+Lemma nth_firstn_lt {A} (d : A) : forall i p l, (p < i)%nat -> nth p (firstn i l) d = nth p l d.
+Proof. induction i; intros p l H; [lia|]. destruct l; [destruct p; reflexivity|]. destruct p; [reflexivity|]. cbn. apply IHi. lia. Qed.
+
+Lemma nth_skipn_add {A} (d : A) : forall k p l, nth p (skipn k l) d = nth (k + p) l d.
+Proof. induction k; intros p l; [reflexivity|]. destruct l; [destruct p; reflexivity|]. cbn. apply IHk. Qed.
+
+Lemma skipn_nth_cons {A} (d : A) : forall g l, (g < length l)%nat -> skipn g l = nth g l d :: skipn (S g) l.
+Proof. induction g; intros [|x l] H; cbn [length] in H; try lia; [reflexivity|]. cbn [skipn nth]. rewrite (IHg l) by lia. reflexivity. Qed.
+
+Lemma firstn_S_nth {A} (d : A) : forall g l, (g < length l)%nat -> firstn (S g) l = firstn g l ++ [nth g l d].
+Proof. induction g; intros [|x l] H; cbn [length] in H; try lia; [reflexivity|]. cbn [firstn nth app]. f_equal. apply IHg. lia. Qed.
+
+Lemma nth_mtf_front (d : N) i l p : (i < length l)%nat ->
+  nth p (snd (mtf_front i l d)) d =
+  if (p =? 0)%nat then nth i l d else if (p <=? i)%nat then nth (p - 1) l d else nth p l d.
+Proof.
+  intro Hi. unfold mtf_front. cbn [snd]. destruct p as [|p]; [reflexivity|]. cbn [nth Nat.eqb].
+  assert (Lf : length (firstn i l) = i) by (rewrite firstn_length; lia).
+  destruct (Nat.leb_spec (S p) i) as [H|H].
+  - rewrite app_nth1 by lia. rewrite nth_firstn_lt by lia. f_equal. lia.
+  - rewrite app_nth2 by lia. rewrite Lf, nth_skipn_add. f_equal. lia.
+Qed.
+
+(* ---- the selectors ---------------------------------------------------------------------------------------------- *)
+Definition sel_step (ord : list N) (s : N) : list N := snd (mtf_front (N.to_nat s) ord 0).
+
+Lemma sel_order_eq sels : sel_order sels = fold_left sel_step sels [0; 1; 2; 3; 4; 5].
+Proof. reflexivity. Qed.
+
+Lemma unmtf_sel_length : forall l o, length (unmtf_selectors o l) = length l.
+Proof. induction l as [|s l IH]; intro o; [reflexivity|]. cbn [unmtf_selectors mtf_front length]. rewrite IH. reflexivity. Qed.
+
+Lemma unmtf_sel_skipn : forall g l o,
+  skipn g (unmtf_selectors o l) = unmtf_selectors (fold_left sel_step (firstn g l) o) (skipn g l).
+Proof.
+  induction g as [|g IH]; intros l o; [reflexivity|]. destruct l as [|s l]; [reflexivity|].
+  cbn [unmtf_selectors mtf_front skipn firstn fold_left]. rewrite IH. reflexivity.
+Qed.
+
+Lemma sel_order_snoc g l : (g < length l)%nat ->
+  sel_order (firstn (S g) l) = snd (mtf_front (N.to_nat (nth g l 0)) (sel_order (firstn g l)) 0).
+Proof. intro H. rewrite (firstn_S_nth 0) by exact H. rewrite !sel_order_eq, fold_left_app. reflexivity. Qed.
+
+Lemma sels_skipn g l : (g < length l)%nat ->
+  skipn g (unmtf_selectors [0; 1; 2; 3; 4; 5] l) =
+  nth (N.to_nat (nth g l 0)) (sel_order (firstn g l)) 0 :: skipn (S g) (unmtf_selectors [0; 1; 2; 3; 4; 5] l).
+Proof.
+  intro H. rewrite !unmtf_sel_skipn. rewrite (skipn_nth_cons 0 g l H). cbn [unmtf_selectors mtf_front].
+  f_equal. rewrite (firstn_S_nth 0) by exact H. rewrite fold_left_app. reflexivity.
+Qed.
+
+Lemma sel_order_len : forall l o, length o = 6%nat -> Forall (fun s => s < 6) l -> length (fold_left sel_step l o) = 6%nat.
+Proof.
+  induction l as [|s l IH]; intros o Ho F; [exact Ho|]. inversion F; subst. cbn [fold_left]. apply IH; [|assumption].
+  unfold sel_step, mtf_front. cbn [snd length]. rewrite app_length, firstn_length, skipn_length. lia.
+Qed.
+
+(* ---- what the relations look at ----------------------------------------------------------------------------------- *)
+Definition stat (c : core) :=
+  (d_rand c, d_bwt_idx c, r_num_trees c, r_alpha_size c, r_num_selectors c, r_selector c, r_mtf c, r_tree c).
+Definition dyn (c : core) := (r_run c, r_shift c, c_ttp c, c_tt c, r_runChar c).
+
+Lemma G_static_stat c c' h selm tables k : stat c' = stat c -> G_static c h selm tables k -> G_static c' h selm tables k.
+Proof.
+  unfold stat, G_static. intro E. injection E as E1 E2 E3 E4 E5 E6 E7 E8. rewrite E1, E2, E3, E4, E5, E6, E7, E8. auto.
+Qed.
+
+Lemma G_syms_dyn c c' h order syms : dyn c' = dyn c -> G_syms c h order syms -> G_syms c' h order syms.
+Proof.
+  unfold dyn, G_syms. intro E. injection E as E1 E2 E3 E4 E5. rewrite E1, E2, E3, E4, E5. auto.
+Qed.
+
+Lemma strm_vw c c' nx : c_v c' = c_v c -> c_w c' = c_w c -> strm c' nx = strm c nx.
+Proof. intros Ev Ew. unfold strm, bufq. rewrite Ev, Ew. reflexivity. Qed.
+
+Lemma J_group_set_j c order x : J_group c order -> J_group (set_r_j c x) order.
+Proof. intro J. dcore c. jopen. exact J. Qed.
+
+(* ---- group_select, explicitly -------------------------------------------------------------------------------------- *)
+Lemma group_select_val c : r_g c < r_num_selectors c -> r_g c < N.of_nat (length (r_selector c)) ->
+  let i := nth (N.to_nat (r_g c)) (r_selector c) 0 in
+  let code := nth (N.to_nat i) (r_mtf c) 0 in
+  i < N.of_nat (length (r_mtf c)) ->
+  exists m', length m' = length (r_mtf c) /\
+    (forall p, (1 <= p <= N.to_nat i)%nat -> nth p m' 0 = nth (p - 1) (r_mtf c) 0) /\
+    (forall p, (p = 0 \/ N.to_nat i < p)%nat -> nth p m' 0 = nth p (r_mtf c) 0) /\
+    group_select c = if MAX_TREES <=? code then GOut (BRet code (set_r_t c code))
+                     else GSel (set_r_mtf (set_r_t c code) (upd 0 code m')).
+Proof.
+  intros Hg Hgl i code Hi.
+  destruct (mtf_shift_spec (N.to_nat i) (r_mtf c)) as (m' & E & L & P1 & P2); [lia|].
+  exists m'. split; [exact L|]. split; [exact P1|]. split; [exact P2|].
+  unfold group_select. apply N.ltb_lt in Hg. rewrite Hg. rewrite xget_ok by exact Hgl. fold i.
+  rewrite xget_ok by exact Hi. fold code. destruct (MAX_TREES <=? code); [reflexivity|].
+  replace (r_mtf (set_r_t c code)) with (r_mtf c) by (dcore c; reflexivity).
+  rewrite E. cbn [bindX]. rewrite xset_ok by lia. reflexivity.
+Qed.
+
+Lemma gsel_fields c t m : let c' := set_r_j (set_r_mtf (set_r_t c t) m) 0 in
+  d_rand c' = d_rand c /\ d_bwt_idx c' = d_bwt_idx c /\ r_num_trees c' = r_num_trees c /\ r_alpha_size c' = r_alpha_size c /\
+  r_num_selectors c' = r_num_selectors c /\ r_selector c' = r_selector c /\ r_tree c' = r_tree c /\ r_mtf c' = m /\
+  r_t c' = t /\ r_g c' = r_g c /\ r_j c' = 0 /\ c_v c' = c_v c /\ c_w c' = c_w c /\ dyn c' = dyn c.
+Proof. destruct c. cbv zeta. repeat split; reflexivity. Qed.
+
+Lemma run_Fail_bind {A B} e (f : A -> prog B) bits : run (bind (Fail e) f) bits = Err e.
+Proof. reflexivity. Qed.
 
 (* the head of the group loop (slow path): the tree of the group *)
 Lemma ref_group c h selm tables g syms nx : R_group c h selm tables g syms -> buf_ok c -> 12 <= c_w c ->
@@ -30,7 +144,457 @@ Lemma ref_group c h selm tables g syms nx : R_group c h selm tables g syms -> bu
   | _ => True
   end.
 Proof.
-Abort.
+  intros (order & J & GS & Eg & GY) _ _.
+  pose proof (group_select_ok c order J) as P.
+  pose proof J as J0. unfold J_group in J0.
+  destruct J0 as (Hsh & Htt & Httl & Hnt & Hal & Hlo & Hfo & Hns & Hg & Hsel & Hmg & Hsim & Hrc & Hrun).
+  destruct Hsh as (Ls & Lc & Lm & Lt & Lwf & Lsl & Lf).
+  pose proof GS as (S1 & S2 & S3 & S4 & S5 & S6 & S7 & S8 & S9 & S10).
+  assert (Lcl : length (clamped selm) = N.to_nat (r_num_selectors c)).
+  { unfold clamped. rewrite firstn_length, S5, S7. lia. }
+  assert (Lso : length (sels_of selm) = N.to_nat (r_num_selectors c)).
+  { unfold sels_of. rewrite unmtf_sel_length. exact Lcl. }
+  unfold group_head.
+  destruct (r_g c <? r_num_selectors c) eqn:Eg'.
+  2:{ unfold group_select. rewrite Eg'. cbn [fst]. apply N.ltb_ge in Eg'.
+      unfold spec_fails, K_group. rewrite skipn_all2 by lia. cbn [read_groups]. rewrite run_Fail_bind. exact I. }
+  apply N.ltb_lt in Eg'.
+  destruct (group_select_val c Eg' ltac:(lia)) as (m' & L & P1 & P2 & E); [| clear P].
+  { pose proof (Hsel _ Eg') as Hi. unfold sel in Hi. lia. }
+  pose proof (group_select_ok c order J) as P. rewrite E in P |- *. clear E.
+  set (i := nth (N.to_nat (r_g c)) (r_selector c) 0) in *.
+  set (code := nth (N.to_nat i) (r_mtf c) 0) in *.
+  set (cl := clamped selm) in *.
+  assert (Fcl : Forall (fun s => s < h_nt h) cl) by (apply Forall_firstn; exact S6).
+  assert (Ei : i = nth g cl 0).
+  { subst i cl. rewrite <- S8. rewrite nth_firstn_lt by lia. f_equal. lia. }
+  assert (Hi : i < h_nt h).
+  { rewrite Ei. apply (Forall_nth' (fun s => s < h_nt h)); [exact Fcl|lia]. }
+  set (so := sel_order (firstn g cl)) in *.
+  assert (Lso6 : length so = 6%nat).
+  { subst so. rewrite sel_order_eq. apply sel_order_len; [reflexivity|]. apply Forall_firstn.
+    eapply Forall_impl; [|exact Fcl]. cbv beta. intros a Ha. lia. }
+  pose proof (S10 i Hi) as S10i. cbv zeta in S10i. fold so in S10i.
+  set (t := nth (N.to_nat i) so 0) in *. fold code in S10i. destruct S10i as (Tt & Tl & Tr).
+  assert (Esk : skipn g (sels_of selm) = t :: skipn (S g) (sels_of selm)).
+  { unfold sels_of. change (firstn (N.to_nat (sel_clamp lbz_policy)) selm) with cl.
+    rewrite (sels_skipn g cl) by lia. rewrite <- Ei. reflexivity. }
+  pose proof Tr as (pad & T0 & vd & Hpre & Hmk & Hcode).
+  pose proof (make_tree_verdict_policy _ _ _ _ _ Hpre Hmk) as Hpol.
+  change MAX_TREES with 6 in *. change E_ERR_INCOMPLT with 11 in *. change E_ERR_PREFIX with 10 in *.
+  destruct (6 <=? code) eqn:Ec.
+  - apply N.leb_le in Ec. cbn [fst]. unfold spec_fails, K_group. rewrite Esk. cbn [read_groups].
+    change (table_check lbz_policy) with complete_only. rewrite <- Hpol.
+    destruct vd; unfold verdict_code in Hcode; [exfalso; lia| |]; cbn [verdict_result]; rewrite run_Fail_bind; exact I.
+  - apply N.leb_gt in Ec.
+    assert (Evd : vd = VBuilt).
+    { destruct vd; [reflexivity|exfalso..]; unfold verdict_code in Hcode; change E_ERR_INCOMPLT with 11 in *;
+        change E_ERR_PREFIX with 10 in *; lia. }
+    subst vd. cbn [verdict_code] in Hcode. cbn [verdict_result] in Hpol.
+    cbn [andb fst]. unfold slow_head.
+    destruct (gsel_fields c code (upd 0 code m')) as (F1 & F2 & F3 & F4 & F5 & F6 & F7 & F8 & F9 & F10 & F11 & F12 & F13 & F14).
+    destruct P as (PJ & Pg & Pt & Ptg & _ & _).
+    set (c1 := set_r_mtf (set_r_t c code) (upd 0 code m')) in *.
+    set (c' := set_r_j c1 0) in *.
+    rewrite F11. change (0 <? GROUP_SIZE) with true. cbv iota.
+    exists (nth (N.to_nat t) tables []). split.
+    + exists order.
+      assert (Q1 : r_g c1 = r_g c /\ r_t c1 = code /\ r_alpha_size c1 = r_alpha_size c /\ r_tree c1 = r_tree c).
+      { subst c1. clear. dcore c. repeat split; reflexivity. }
+      destruct Q1 as (Q1 & Q2 & Q3 & Q4).
+      split.
+      { unfold J_prefix. rewrite F10, F11, F9, F4, F7, F5. rewrite Q1, Q2, Q3, Q4 in *.
+        split; [apply J_group_set_j; exact PJ|]. split; [lia|]. split; [lia|]. split; [exact Pt|exact Ptg]. }
+      split.
+      { unfold G_static. rewrite F1, F2, F3, F4, F5, F6, F7, F8.
+        split; [exact S1|]. split; [exact S2|]. split; [exact S3|]. split; [exact S4|]. split; [exact S5|].
+        split; [exact S6|]. split; [exact S7|]. split; [exact S8|]. split; [exact S9|].
+        intros i' Hi'. cbv zeta. fold cl. rewrite (sel_order_snoc g cl) by lia. fold so. rewrite <- Ei.
+        rewrite nth_mtf_front by lia.
+        destruct (Nat.eqb_spec (N.to_nat i') 0) as [E0|E0].
+        - fold t. rewrite E0, nth_upd_same by lia. split; [exact Tt|]. split; [exact Tl|]. exact Tr.
+        - rewrite nth_upd_other by exact E0.
+          destruct (Nat.leb_spec (N.to_nat i') (N.to_nat i)) as [Hle|Hgt].
+          + rewrite P1 by lia. replace (N.to_nat i' - 1)%nat with (N.to_nat (i' - 1)) by lia.
+            apply (S10 (i' - 1)). lia.
+          + rewrite P2 by lia. apply (S10 i' Hi'). }
+      split; [rewrite F10; exact Eg|].
+      split; [apply (G_syms_dyn c); [exact F14|exact GY]|].
+      split; [rewrite F11; reflexivity|].
+      rewrite F9, F7.
+      split.
+      { rewrite Hcode. replace (nth g (sels_of selm) 0) with (nth 0 (skipn g (sels_of selm)) 0)
+          by (rewrite nth_skipn_add; f_equal; lia). rewrite Esk. reflexivity. }
+      split; [rewrite Hcode; reflexivity|].
+      rewrite Hcode in Tr |- *. exact Tr.
+    + rewrite (strm_vw c c' nx F12 F13). unfold K_group, K_prefix. rewrite Esk. cbn [read_groups].
+      change (table_check lbz_policy) with complete_only. rewrite <- Hpol. change group_size with 50%nat.
+      set (rg := read_group (nth (N.to_nat t) tables []) (h_eob h) 50).
+      rewrite (run_bind (bind rg _)). rewrite !(run_bind rg).
+      destruct (run rg (strm c nx)) as [[gr r]|e]; [|reflexivity].
+      destruct (snd gr); [reflexivity|].
+      rewrite !run_bind. destruct (run (read_groups _ _ _ _) r) as [[more r']|e]; reflexivity.
+Qed.
+
+(* ---- overflow is sticky ------------------------------------------------------------------------------------------- *)
+Lemma overflows_eq c run : c_ttp c <= MAX_BLOCK_SIZE -> overflows c run = (MAX_BLOCK_SIZE <? c_ttp c + run).
+Proof.
+  intro H. unfold overflows. change MAX_BLOCK_SIZE with 900000 in *.
+  rewrite sub64_small by (rewrite ?W64_val; lia).
+  destruct (N.ltb_spec (900000 - c_ttp c) run); destruct (N.ltb_spec 900000 (c_ttp c + run)); try reflexivity; lia.
+Qed.
+
+Definition over (limit : N) (u : ust) : Prop := let '(_, run, _, size, _) := u in limit < size + run.
+
+Lemma over_sticky limit : forall l u, over limit u ->
+  match usteps limit u l with Ok u' => over limit u' | Err e => e = ErrOverflow end.
+Proof.
+  induction l as [|s l IH]; intros [[[[o run] sh] size] acc] H; [exact H|].
+  cbn [usteps ustep]. cbn [over] in H. destruct (s <=? 1).
+  - apply IH. cbn [over]. lia.
+  - apply N.ltb_lt in H. rewrite H. reflexivity.
+Qed.
+
+Lemma post_over h tables syms l o run sh size acc :
+  usteps MAX_BLOCK_SIZE (h_used h, 0, 0, 0, []) syms = Ok (o, run, sh, size, acc) -> MAX_BLOCK_SIZE < size + run ->
+  RetrSpec.post (mk_rb h tables (syms ++ l)) = Err ErrOverflow.
+Proof.
+  intros H Ho. unfold RetrSpec.post. cbn [mk_rb rb_used rb_mtfv]. unfold unmtf_block.
+  rewrite unmtf_usteps, usteps_app, H.
+  pose proof (over_sticky MAX_BLOCK_SIZE l (o, run, sh, size, acc) Ho) as S.
+  destruct (usteps MAX_BLOCK_SIZE (o, run, sh, size, acc) l) as [[[[[o' run'] sh'] size'] acc']|e].
+  - cbn [over] in S. cbn [ufinal]. apply N.ltb_lt in S. rewrite S. reflexivity.
+  - subst e. reflexivity.
+Qed.
+
+(* ---- the residual programs ----------------------------------------------------------------------------------------- *)
+Lemma K_prefix_mtfv h selm tables g syms lens n bits rb r :
+  run (K_prefix h selm tables g syms lens n) bits = Ok (rb, r) -> exists l, rb = mk_rb h tables (syms ++ l).
+Proof.
+  unfold K_prefix. rewrite run_bind. destruct (run (read_group lens (h_eob h) n) bits) as [[gr r0]|e]; [|discriminate].
+  destruct (snd gr).
+  - cbn [run]. intro H. injection H as <- _. eexists. reflexivity.
+  - rewrite run_bind. destruct (run (read_groups _ _ _ _) r0) as [[more r1]|e]; [|discriminate].
+    cbn [run]. intro H. injection H as <- _. eexists. reflexivity.
+Qed.
+
+Lemma K_prefix_step h selm tables g syms lens n a bits bits' :
+  run (decode_sym lens) bits = Ok (a, bits') -> (a =? h_eob h) = false ->
+  run (K_prefix h selm tables g syms lens (S n)) bits = run (K_prefix h selm tables g (syms ++ [a]) lens n) bits'.
+Proof.
+  intros H E. unfold K_prefix. cbn [read_group].
+  rewrite (run_bind (bind (decode_sym lens) _)). rewrite (run_bind (decode_sym lens)), H, E.
+  rewrite !(run_bind (read_group lens (h_eob h) n)).
+  destruct (run (read_group lens (h_eob h) n) bits') as [[r0 rest]|e]; [|reflexivity].
+  cbn [run fst snd]. destruct (snd r0).
+  - cbn [run]. rewrite <- app_assoc. reflexivity.
+  - rewrite !run_bind. destruct (run (read_groups _ _ _ _) rest) as [[more r1]|e]; [|reflexivity].
+    cbn [run]. rewrite <- app_assoc. reflexivity.
+Qed.
+
+Lemma K_prefix_eob h selm tables g syms lens n a bits bits' :
+  run (decode_sym lens) bits = Ok (a, bits') -> (a =? h_eob h) = true ->
+  run (K_prefix h selm tables g syms lens (S n)) bits = Ok (mk_rb h tables (syms ++ []), bits').
+Proof.
+  intros H E. unfold K_prefix. cbn [read_group].
+  rewrite (run_bind (bind (decode_sym lens) _)). rewrite (run_bind (decode_sym lens)), H, E. reflexivity.
+Qed.
+
+Lemma K_prefix_0 h selm tables g syms lens bits :
+  run (K_prefix h selm tables g syms lens 0) bits = run (K_group h selm tables (S g) syms) bits.
+Proof. reflexivity. Qed.
+
+(* ---- one symbol off the stream ----------------------------------------------------------------------------------- *)
+Lemma decode_strm c q lens pad T0 T' nx : buf_is c q -> 32 <= c_w c -> tree_pre lens pad T0 ->
+  make_tree (N.of_nat (length lens)) (lens ++ pad) T0 = Done (VBuilt, T') ->
+  exists a k c2,
+    tree_decode (N.of_nat (length lens)) T' (c_v c) =
+      Done (isym (N.of_nat (length lens)) a, N.of_nat k, (c_v c * 2 ^ N.of_nat k) mod 2 ^ 64) /\
+    (1 <= k <= 20)%nat /\ a < N.of_nat (length lens) /\
+    c2 = set_c_w (set_c_v c ((c_v c * 2 ^ N.of_nat k) mod 2 ^ 64)) (c_w c - N.of_nat k) /\
+    buf_is c2 (q mod 2 ^ (c_w c - N.of_nat k)) /\
+    run (decode_sym lens) (strm c nx) = Ok (a, strm c2 nx).
+Proof.
+  intros B Hw Hpre Hmk.
+  destruct (tree_decode_correct lens pad T0 T' (c_v c) Hpre Hmk (buf_v_lt c q B)) as (a & k & rest & Ed & Hk & Ha & Hrun & Hrest & _).
+  destruct (dump_ok c q (N.of_nat k) B ltac:(lia)) as (c2 & _ & Ec2 & B2).
+  exists a, k, c2. split; [exact Ed|]. split; [exact Hk|]. split; [exact Ha|]. split; [exact Ec2|]. split; [exact B2|].
+  assert (Ew2 : c_w c2 = c_w c - N.of_nat k) by (subst c2; clear; dcore c; reflexivity).
+  destruct (run_frame _ _ _ _ Hrun) as (d & Hd & Hf).
+  assert (Es : bits_msb 64 (c_v c) = bits_msb k (c_v c / 2 ^ N.of_nat (64 - k)) ++ bits_msb (64 - k) (c_v c)).
+  { rewrite <- bits_msb_split. f_equal. lia. }
+  rewrite Es, Hrest in Hd. apply app_inv_tail in Hd. subst d.
+  rewrite (strm_split c q (N.of_nat k) c2 nx B ltac:(lia) B2 Ew2). rewrite Nat2N.id.
+  replace (q / 2 ^ (c_w c - N.of_nat k)) with (c_v c / 2 ^ N.of_nat (64 - k)); [apply Hf|].
+  destruct B as (Hw63 & Hq & Hv). rewrite Hv.
+  replace (N.of_nat (64 - k)) with (64 - N.of_nat k) by lia.
+  rewrite (pow2_split (64 - N.of_nat k) (64 - c_w c)) by lia.
+  replace (64 - N.of_nat k - (64 - c_w c)) with (c_w c - N.of_nat k) by lia.
+  apply N.div_mul_cancel_r; apply N.pow_nonzero; discriminate.
+Qed.
+
+(* ---- small list facts ---------------------------------------------------------------------------------------------- *)
+Lemma repeat_snoc {A} (x : A) n : repeat x n ++ [x] = x :: repeat x n.
+Proof. induction n; [reflexivity|]. cbn [repeat app]. rewrite IHn. reflexivity. Qed.
+
+Lemma rev_repeat_id {A} (x : A) n : rev (repeat x n) = repeat x n.
+Proof. induction n; [reflexivity|]. cbn [repeat rev]. rewrite IHn. apply repeat_snoc. Qed.
+
+Lemma expand_runs_app a b : expand_runs (a ++ b) = expand_runs a ++ expand_runs b.
+Proof. induction a as [|[ch n] a IH]; [reflexivity|]. cbn [app expand_runs]. rewrite IH, app_assoc. reflexivity. Qed.
+
+Lemma expand_runs_snoc acc ch n : expand_runs (rev ((ch, n) :: acc)) = expand_runs (rev acc) ++ repeat ch (N.to_nat n).
+Proof. cbn [rev]. rewrite expand_runs_app. cbn [expand_runs]. rewrite app_nil_r. reflexivity. Qed.
+
+(* ---- the code behind the decode sequence, with the abstract values ------------------------------------------------- *)
+Definition keep (c c' : core) : Prop := stat c' = stat c /\ r_t c' = r_t c /\ c_v c' = c_v c /\ c_w c' = c_w c.
+
+(* a continuing outcome: [order'], [syms'] are the abstract values behind it *)
+Definition postR (h : hdr) (order' syms' : list N) (c : core) (b : bres) : Prop :=
+  match b with
+  | BNeed S_prefix c' => r_j c + 1 < 50 /\ r_j c' = r_j c + 1 /\ r_g c' = r_g c /\ keep c c' /\
+                         J_prefix c' order' /\ G_syms c' h order' syms'
+  | BGo P_GROUP c' => r_j c + 1 = 50 /\ r_g c' = r_g c + 1 /\ keep c c' /\ J_group c' order' /\ G_syms c' h order' syms'
+  | _ => False
+  end.
+
+Lemma postR_keep h order' syms' c c1 b : keep c c1 -> r_j c1 = r_j c -> r_g c1 = r_g c ->
+  postR h order' syms' c1 b -> postR h order' syms' c b.
+Proof.
+  intros (K1 & K2 & K3 & K4) Ej Eg. unfold postR, keep.
+  destruct b as [p c'|s c'| | |]; try exact (fun x => x).
+  - destruct p as [?| |]; try exact (fun x => x). rewrite Ej, Eg, K1, K2, K3, K4. exact (fun x => x).
+  - destruct s; try exact (fun x => x). rewrite Ej, Eg, K1, K2, K3, K4. exact (fun x => x).
+Qed.
+
+(* rs->j++ and the loop test *)
+Lemma slow_head_R c h order syms : J_prefix c order -> G_syms c h order syms ->
+  postR h order syms c (slow_head (set_r_j c (add32 (r_j c) 1))).
+Proof.
+  intros J GY. pose proof J as (JG & Hg & Hj & Ht & TG). unfold slow_head.
+  replace (r_j (set_r_j c (add32 (r_j c) 1))) with (add32 (r_j c) 1) by (dcore c; reflexivity).
+  rewrite add32_small by (rewrite W32_val; lia). change GROUP_SIZE with 50.
+  destruct (r_j c + 1 <? 50) eqn:E.
+  - apply N.ltb_lt in E. cbn [postR].
+    set (c' := set_r_j c (r_j c + 1)).
+    assert (F : r_j c' = r_j c + 1 /\ r_g c' = r_g c /\ keep c c' /\ dyn c' = dyn c).
+    { subst c'. clear. destruct c. unfold keep. repeat split; reflexivity. }
+    destruct F as (F1 & F2 & F3 & F4).
+    split; [exact E|]. split; [exact F1|]. split; [exact F2|]. split; [exact F3|].
+    split; [|apply (G_syms_dyn c); assumption].
+    subst c'. clear - J E. dcore c. jopen. destruct J as (JG & J'). csplit; try assumption; try lia; first [apply JG|apply J'].
+  - apply N.ltb_ge in E. cbn [postR].
+    assert (G1 : add32 (r_g (set_r_j c (r_j c + 1))) 1 = r_g c + 1).
+    { replace (r_g (set_r_j c (r_j c + 1))) with (r_g c) by (dcore c; reflexivity).
+      apply add32_small. rewrite W32_val. unfold J_group in JG. lia. }
+    rewrite G1.
+    set (c' := set_r_g (set_r_j c (r_j c + 1)) (r_g c + 1)).
+    assert (F : r_g c' = r_g c + 1 /\ keep c c' /\ dyn c' = dyn c).
+    { subst c'. clear. destruct c. unfold keep. repeat split; reflexivity. }
+    destruct F as (F2 & F3 & F4).
+    split; [lia|]. split; [exact F2|]. split; [exact F3|].
+    split; [|apply (G_syms_dyn c); assumption].
+    subst c'. clear - J E. dcore c. jopen. destruct J as (JG & J'). csplit; try assumption; try lia; first [apply JG|apply J'].
+Qed.
+
+(* a run symbol under the guard *)
+Lemma acc_R c h order syms a : J_prefix c order -> G_syms c h order syms -> a <= 1 -> run_guard 1 (r_run c) = true ->
+  postR h order (syms ++ [a]) c
+    (sh <== ofM (shl32 (a + 1) (r_shift c)) ;;
+     let c := set_r_shift (set_r_run c (add32 (r_run c) sh)) (add32 (r_shift c) 1) in
+     slow_head (set_r_j c (add32 (r_j c) 1))).
+Proof.
+  intros J GY Ha Hgd. unfold run_guard in Hgd. rewrite guard1_val in Hgd. change MAX_BLOCK_SIZE with 900000 in Hgd.
+  apply N.leb_le in Hgd.
+  assert (Hro : run_ok (r_run c) (r_shift c)) by apply J. destruct Hro as (Hr1 & Hr2).
+  assert (Hsh : r_shift c <= 20).
+  { destruct (N.le_gt_cases (r_shift c) 20) as [H|H]; [exact H|].
+    assert (2 ^ 21 <= 2 ^ r_shift c) by (apply N.pow_le_mono_r; lia). change (2 ^ 21) with 2097152 in *. lia. }
+  assert (Hp : 2 ^ r_shift c <= 2 ^ 20) by (apply N.pow_le_mono_r; lia). change (2 ^ 20) with 1048576 in Hp.
+  set (d := a + 1) in *. assert (Hd : d = 1 \/ d = 2) by lia.
+  unfold shl32. assert (E : (r_shift c <? 32) = true) by (apply N.ltb_lt; lia). rewrite E. cbn [ofM bindB].
+  rewrite N.shiftl_mul_pow2. rewrite (N.mod_small (_ * _)) by (rewrite W32_val; lia).
+  cbv zeta. rewrite (add32_small (r_run c)) by (rewrite W32_val; lia).
+  rewrite (add32_small (r_shift c)) by (rewrite W32_val; lia).
+  set (c1 := set_r_shift (set_r_run c (r_run c + d * 2 ^ r_shift c)) (r_shift c + 1)).
+  assert (F : keep c c1 /\ r_j c1 = r_j c /\ r_g c1 = r_g c /\ r_run c1 = r_run c + d * 2 ^ r_shift c /\
+              r_shift c1 = r_shift c + 1 /\ c_ttp c1 = c_ttp c /\ c_tt c1 = c_tt c /\ r_runChar c1 = r_runChar c).
+  { subst c1. clear. destruct c. unfold keep. repeat split; reflexivity. }
+  destruct F as (F1 & F2 & F3 & F4 & F5 & F6 & F7 & F8).
+  apply (postR_keep h order _ c c1); [exact F1|exact F2|exact F3|].
+  apply slow_head_R.
+  - assert (RO : run_ok (r_run c + d * 2 ^ r_shift c) (r_shift c + 1)).
+    { split; [rewrite N.pow_add_r; change (2 ^ 1) with 2; lia|lia]. }
+    subst c1. clear - J RO. dcore c. jopen. destruct J as (JG & J'). csplit; try assumption; try lia; try apply JG; try apply J'.
+  - destruct GY as (run & shift & size & acc & U & G1 & G2 & G3 & G4 & G5).
+    exists (run + d * 2 ^ shift), (shift + 1), size, acc.
+    rewrite usteps_app, U. cbn [usteps ustep]. assert (E1 : (a <=? 1) = true) by (apply N.leb_le; exact Ha). rewrite E1.
+    rewrite N.shiftl_mul_pow2. fold d. rewrite F4, F5, F6, F7, F8, G1, G2. csplit; first [reflexivity|assumption].
+Qed.
+
+Lemma hd_mtf_front (order : list N) i : hd 0 (snd (mtf_front i order 0)) = fst (mtf_front i order 0).
+Proof. reflexivity. Qed.
+
+(* an MTF symbol: flush the pending run, move to front, start a new run *)
+Lemma sym_R c h order syms a : J_prefix c order -> G_syms c h order syms ->
+  2 <= a -> a - 1 < N.of_nat (length order) -> overflows c (r_run c) = false ->
+  postR h (snd (mtf_front (N.to_nat (a - 1)) order 0)) (syms ++ [a]) c
+    (c <== emit_run c (r_runChar c) (r_run c) ;;
+     let c := set_r_run c UINT_MAX in
+     match SlideModel.mtf_one_c ((a - 1) mod W8) (r_slide c) with
+     | SlideModel.Oob => BFault FSlideOob
+     | SlideModel.Abort => BFault FSlideAbort
+     | SlideModel.Done x sl =>
+         let c := set_r_run (set_r_shift (set_r_runChar (set_r_slide c sl) x) 0) 1 in
+         slow_head (set_r_j c (add32 (r_j c) 1))
+     end).
+Proof.
+  intros J GY Ha1 Ha2 Ho. set (s := a - 1) in *.
+  destruct (emit_J c order J Ho) as (c1 & E & J1 & Ev & Ew & Esl & Ej).
+  pose proof J as (JG & _).
+  assert (Httl : c_ttp c <= MAX_BLOCK_SIZE) by apply JG.
+  assert (Hf : c_ttp c + r_run c <= MAX_BLOCK_SIZE) by (apply overflows_false; [exact Httl|exact Ho]).
+  pose proof E as E'. rewrite emit_run_ok in E'; [|apply JG|apply JG|exact Hf]. injection E' as E'.
+  rewrite E. cbn [bindB]. cbv zeta.
+  replace (r_slide (set_r_run c1 UINT_MAX)) with (r_slide c) by (rewrite <- Esl; dcore c1; reflexivity).
+  assert (Hlo : (1 <= length order <= 256)%nat) by apply J.
+  assert (Hfo : Forall (fun x => x < 256) order) by apply J.
+  assert (Hsim : SlideProofs.Sim_c (r_slide c) order) by apply J.
+  rewrite N.mod_small by (change W8 with 256; lia).
+  destruct (SlideProofs.slide_step_sim (r_slide c) order s Hsim ltac:(lia) Ha2) as (sl & Em & Hsim').
+  rewrite Em.
+  destruct (mtf_front_Forall (fun x => x < 256) (N.to_nat s) order Hfo ltac:(lia)) as (Fx & Fo & Fl).
+  pose proof (hd_mtf_front order (N.to_nat s)) as Hhd.
+  set (x := fst (mtf_front (N.to_nat s) order 0)) in *. set (order' := snd (mtf_front (N.to_nat s) order 0)) in *.
+  set (c2 := set_r_run (set_r_shift (set_r_runChar (set_r_slide (set_r_run c1 UINT_MAX) sl) x) 0) 1).
+  assert (F : keep c c2 /\ r_j c2 = r_j c /\ r_g c2 = r_g c /\ r_run c2 = 1 /\ r_shift c2 = 0 /\
+              c_ttp c2 = c_ttp c + r_run c /\ c_tt c2 = repeat (r_runChar c) (N.to_nat (r_run c)) ++ c_tt c /\ r_runChar c2 = x).
+  { subst c2. rewrite <- E'. clear. destruct c. unfold keep. repeat split; reflexivity. }
+  destruct F as (F1 & F2 & F3 & F4 & F5 & F6 & F7 & F8).
+  apply (postR_keep h order' _ c c2); [exact F1|exact F2|exact F3|].
+  apply slow_head_R.
+  - subst c2. clear E E' Ev Ew Esl Ej Em Hsim J Ho GY F1 F2 F3 F4 F5 F6 F7 F8 JG Httl Hf.
+    assert (RO : run_ok 1 0) by (split; [cbn; lia|reflexivity]).
+    dcore c1. jopen. destruct J1 as (JG & J'). rewrite Fl. csplit; try assumption; try lia; try apply JG; try apply J'.
+    exact (Sim_c_len _ _ Hsim').
+  - destruct GY as (run & shift & size & acc & U & G1 & G2 & G3 & G4 & G5).
+    exists 1, 0, (size + run), ((hd 0 order, run) :: acc).
+    rewrite usteps_app, U. cbn [usteps ustep]. assert (E1 : (a <=? 1) = false) by (apply N.leb_gt; lia). rewrite E1.
+    assert (E2 : (MAX_BLOCK_SIZE <? size + run) = false) by (apply N.ltb_ge; lia). rewrite E2.
+    fold s. fold order'. split; [reflexivity|].
+    rewrite F4, F5, F6, F7, F8, G1, G3. split; [reflexivity|]. split; [reflexivity|]. split; [reflexivity|].
+    split; [|symmetry; exact Hhd].
+    rewrite rev_app_distr, rev_repeat_id, G4, expand_runs_snoc, G5. reflexivity.
+Qed.
+
+(* EOB *)
+Lemma eob_R c h order syms : J_prefix c order -> G_syms c h order syms ->
+  match eob c with
+  | BRet _ _ => MAX_BLOCK_SIZE < c_ttp c + r_run c
+  | BEob c' => unmtf_block MAX_BLOCK_SIZE (h_used h) syms = Ok (rev (c_tt c')) /\ c_ttp c' = N.of_nat (length (c_tt c')) /\
+               d_rand c' = d_rand c /\ d_bwt_idx c' = d_bwt_idx c /\ c_v c' = c_v c /\ c_w c' = c_w c
+  | _ => False
+  end.
+Proof.
+  intros J GY. pose proof J as (JG & _). unfold eob.
+  assert (Httl : c_ttp c <= MAX_BLOCK_SIZE) by apply JG.
+  assert (Htt : c_ttp c = N.of_nat (length (c_tt c))) by apply JG.
+  destruct (overflows c (r_run c)) eqn:Ho.
+  - rewrite overflows_eq in Ho by exact Httl. apply N.ltb_lt in Ho. exact Ho.
+  - assert (Hf : c_ttp c + r_run c <= MAX_BLOCK_SIZE) by (apply overflows_false; [exact Httl|exact Ho]).
+    rewrite emit_run_ok; [|apply JG|apply JG|exact Hf]. cbn [bindB].
+    set (c' := set_r_run _ UINT_MAX).
+    assert (F : c_ttp c' = c_ttp c + r_run c /\ c_tt c' = repeat (r_runChar c) (N.to_nat (r_run c)) ++ c_tt c /\
+                d_rand c' = d_rand c /\ d_bwt_idx c' = d_bwt_idx c /\ c_v c' = c_v c /\ c_w c' = c_w c).
+    { subst c'. clear. destruct c. repeat split; reflexivity. }
+    destruct F as (F1 & F2 & F3 & F4 & F5 & F6).
+    destruct GY as (run & shift & size & acc & U & G1 & G2 & G3 & G4 & G5).
+    split.
+    { unfold unmtf_block. rewrite unmtf_usteps, U. cbn [ufinal].
+      assert (E2 : (MAX_BLOCK_SIZE <? size + run) = false) by (apply N.ltb_ge; lia). rewrite E2.
+      rewrite F2, rev_app_distr, rev_repeat_id, G4, expand_runs_snoc, G5, G1. reflexivity. }
+    split; [rewrite F1, F2, app_length, repeat_length; lia|]. auto.
+Qed.
+
+Lemma after_sym_R c h order syms a : J_prefix c order -> G_syms c h order syms ->
+  r_alpha_size c = N.of_nat (h_alpha h) -> a < r_alpha_size c ->
+  match after_sym c (isym (r_alpha_size c) a) with
+  | BRet _ _ => MAX_BLOCK_SIZE < c_ttp c + r_run c
+  | BEob c' => (a =? h_eob h) = true /\
+               unmtf_block MAX_BLOCK_SIZE (h_used h) syms = Ok (rev (c_tt c')) /\ c_ttp c' = N.of_nat (length (c_tt c')) /\
+               d_rand c' = d_rand c /\ d_bwt_idx c' = d_bwt_idx c /\ c_v c' = c_v c /\ c_w c' = c_w c
+  | BNeed s c' => (a =? h_eob h) = false /\ exists order', postR h order' (syms ++ [a]) c (BNeed s c')
+  | BGo p c' => (a =? h_eob h) = false /\ exists order', postR h order' (syms ++ [a]) c (BGo p c')
+  | BFault _ => False
+  end.
+Proof.
+  intros J GY Hal Ha. pose proof J as (JG & _).
+  assert (Hal' : r_alpha_size c = N.of_nat (length order) + 2) by apply JG.
+  assert (Hlo : (1 <= length order <= 256)%nat) by apply JG.
+  assert (Httl : c_ttp c <= MAX_BLOCK_SIZE) by apply JG.
+  assert (Heob : h_eob h = r_alpha_size c - 1) by (unfold h_eob; rewrite Hal; reflexivity).
+  (* continuing outcomes *)
+  assert (Fin : forall order' b, (a =? h_eob h) = false -> postR h order' (syms ++ [a]) c b ->
+            match b with
+            | BRet _ _ => MAX_BLOCK_SIZE < c_ttp c + r_run c
+            | BEob c' => (a =? h_eob h) = true /\
+                         unmtf_block MAX_BLOCK_SIZE (h_used h) syms = Ok (rev (c_tt c')) /\ c_ttp c' = N.of_nat (length (c_tt c')) /\
+                         d_rand c' = d_rand c /\ d_bwt_idx c' = d_bwt_idx c /\ c_v c' = c_v c /\ c_w c' = c_w c
+            | BNeed s c' => (a =? h_eob h) = false /\ exists order', postR h order' (syms ++ [a]) c (BNeed s c')
+            | BGo p c' => (a =? h_eob h) = false /\ exists order', postR h order' (syms ++ [a]) c (BGo p c')
+            | BFault _ => False
+            end).
+  { intros order' b Ea P. destruct b as [p c'|s c'| | |]; cbn [postR] in P; try contradiction.
+    - split; [exact Ea|]. exists order'. exact P.
+    - split; [exact Ea|]. exists order'. exact P. }
+  unfold after_sym, isym.
+  destruct (N.eqb_spec a 0) as [E0|E0]; [|destruct (N.eqb_spec a 1) as [E1|E1]; [|destruct (N.eqb_spec a (r_alpha_size c - 1)) as [E2|E2]]].
+  - (* RUN_A *)
+    assert (Ea : (a =? h_eob h) = false) by (apply N.eqb_neq; lia).
+    change (RUN_A =? EOB) with false. change (256 <=? RUN_A) with true. change (sub32 RUN_A 256) with 1. cbv iota. cbn [andb].
+    destruct (run_guard 1 (r_run c)) eqn:Eg.
+    + apply (Fin order); [exact Ea|]. replace 1 with (a + 1) at 1 by lia. apply acc_R; try assumption. lia.
+    + unfold run_guard in Eg. rewrite guard1_val in Eg. apply N.leb_gt in Eg.
+      rewrite overflows_big by assumption. lia.
+  - (* RUN_B *)
+    assert (Ea : (a =? h_eob h) = false) by (apply N.eqb_neq; lia).
+    change (RUN_B =? EOB) with false. change (256 <=? RUN_B) with true. change (sub32 RUN_B 256) with 2. cbv iota. cbn [andb].
+    destruct (run_guard 1 (r_run c)) eqn:Eg.
+    + apply (Fin order); [exact Ea|]. replace 2 with (a + 1) at 1 by lia. apply acc_R; try assumption. lia.
+    + unfold run_guard in Eg. rewrite guard1_val in Eg. apply N.leb_gt in Eg.
+      rewrite overflows_big by assumption. lia.
+  - (* EOB *)
+    change (EOB =? EOB) with true. cbv iota.
+    assert (Ea : (a =? h_eob h) = true) by (apply N.eqb_eq; lia).
+    pose proof (eob_R c h order syms J GY) as P.
+    destruct (eob c) as [p c'|s c'| | |]; try contradiction; [exact P|]. split; [exact Ea|exact P].
+  - (* MTF position a - 1 *)
+    assert (Ea : (a =? h_eob h) = false) by (apply N.eqb_neq; lia).
+    assert (Es0 : (a - 1 =? EOB) = false) by (apply N.eqb_neq; unfold EOB; lia). rewrite Es0.
+    assert (Es1 : (256 <=? a - 1) = false) by (apply N.leb_gt; lia). rewrite Es1. cbn [andb].
+    destruct (overflows c (r_run c)) eqn:Ho.
+    + rewrite overflows_eq in Ho by exact Httl. apply N.ltb_lt in Ho. exact Ho.
+    + apply (Fin (snd (mtf_front (N.to_nat (a - 1)) order 0))); [exact Ea|]. apply sym_R; try assumption; lia.
+Qed.
+
+Lemma sels_nth g l : (g < length l)%nat ->
+  nth g (unmtf_selectors [0; 1; 2; 3; 4; 5] l) 0 = nth 0 (sel_order (firstn (S g) l)) 0.
+Proof.
+  intro H. replace (nth g (unmtf_selectors [0; 1; 2; 3; 4; 5] l) 0) with (nth 0 (skipn g (unmtf_selectors [0; 1; 2; 3; 4; 5] l)) 0)
+    by (rewrite nth_skipn_add; f_equal; lia).
+  rewrite (sels_skipn g l H), (sel_order_snoc g l H). reflexivity.
+Qed.
+
+Lemma vw_fields c v w : let c2 := set_c_w (set_c_v c v) w in
+  stat c2 = stat c /\ r_t c2 = r_t c /\ r_j c2 = r_j c /\ r_g c2 = r_g c /\ dyn c2 = dyn c.
+Proof. destruct c. cbv zeta. repeat split; reflexivity. Qed.
+
+Lemma J_prefix_vw c v w order : J_prefix c order -> J_prefix (set_c_w (set_c_v c v) w) order.
+Proof. intro J. dcore c. jopen. exact J. Qed.
+
+Lemma stat_fields c c' : stat c' = stat c ->
+  d_rand c' = d_rand c /\ d_bwt_idx c' = d_bwt_idx c /\ r_alpha_size c' = r_alpha_size c /\ r_tree c' = r_tree c.
+Proof. unfold stat. intro E. injection E as E1 E2 E3 E4 E5 E6 E7 E8. auto. Qed.
 
 (* behind NEED(S_PREFIX): one symbol *)
 Lemma ref_prefix c h selm tables g syms lens n nx : R_prefix c h selm tables g syms lens n -> buf_ok c -> 32 <= c_w c ->
@@ -46,4 +610,79 @@ Lemma ref_prefix c h selm tables g syms lens n nx : R_prefix c h selm tables g s
   | _ => True
   end.
 Proof.
-Abort.
+  intros (order & J & GS & Eg & GY & En & Et & El & Tr) [q B] Hw.
+  pose proof J as (JG & Hg & Hj & Ht & _).
+  assert (Lt : length (r_tree c) = 6%nat) by apply JG.
+  assert (Hnt : 2 <= r_num_trees c <= 6) by apply JG.
+  assert (Hw63 : c_w c <= 63) by apply B.
+  pose proof GS as (S1 & S2 & S3 & S4 & S5 & S6 & S7 & S8 & S9 & S10).
+  (* the tree in use *)
+  destruct Tr as (pad & T0 & vd & Hpre & Hmk & Hcode).
+  assert (Evd : vd = VBuilt).
+  { destruct (verdict_code_spec (r_t c) vd) as ((_ & VB) & _); [change MAX_TREES with 6; exact Ht|].
+    apply VB. symmetry. exact Hcode. }
+  subst vd.
+  assert (Hlen : N.of_nat (length lens) = r_alpha_size c).
+  { assert (Lcl : length (clamped selm) = N.to_nat (r_num_selectors c)).
+    { unfold clamped. rewrite firstn_length, S5, S7. lia. }
+    pose proof (S10 0 ltac:(lia)) as S0. cbv zeta in S0. change (N.to_nat 0) with 0%nat in S0.
+    rewrite <- (sels_nth g (clamped selm)) in S0 by lia.
+    change (unmtf_selectors [0; 1; 2; 3; 4; 5] (clamped selm)) with (sels_of selm) in S0.
+    rewrite Et, <- El in S0. apply S0. }
+  destruct (decode_strm c q lens pad T0 _ nx B Hw Hpre Hmk) as (a & k & c2 & Ed & Hk & Ha & Ec2 & B2 & Hrun).
+  rewrite after_prefix_unf. rewrite (nth_error_nth' (r_tree c) garbage_tree) by lia. cbn [ofO bindB].
+  rewrite Hlen in Ed, Ha. rewrite Ed. cbn [ofM bindB fst snd].
+  rewrite sub32_small by (rewrite ?W32_val; lia).
+  rewrite <- Ec2.
+  destruct (vw_fields c ((c_v c * 2 ^ N.of_nat k) mod 2 ^ 64) (c_w c - N.of_nat k)) as (V1 & V2 & V3 & V4 & V5).
+  rewrite <- Ec2 in V1, V2, V3, V4, V5.
+  assert (J2 : J_prefix c2 order) by (rewrite Ec2; apply J_prefix_vw; exact J).
+  assert (GY2 : G_syms c2 h order syms) by (apply (G_syms_dyn c); assumption).
+  destruct (stat_fields c c2 V1) as (V6 & V7 & V8 & V9).
+  pose proof (after_sym_R c2 h order syms a J2 GY2 ltac:(rewrite V8; exact S4) ltac:(rewrite V8; exact Ha)) as P.
+  rewrite V8 in P.
+  assert (Ettp : c_ttp c2 = c_ttp c /\ r_run c2 = r_run c).
+  { unfold dyn in V5. injection V5 as D1 D2 D3 D4 D5. auto. }
+  destruct Ettp as (Ettp & Erun).
+  destruct (after_sym c2 (isym (r_alpha_size c) a)) as [p c'|s c'|code c'|c'|f].
+  - (* next group *)
+    destruct P as (Ea & order' & P). destruct p as [?| |]; try exact I. cbn [postR] in P.
+    destruct P as (Pj & Pg & (K1 & K2 & K3 & K4) & PJ & PY).
+    destruct n as [|[|n]]; try lia.
+    exists (syms ++ [a]). split.
+    + exists order'. split; [exact PJ|]. split; [apply (G_static_stat c); [congruence|exact GS]|].
+      split; [lia|exact PY].
+    + rewrite (K_prefix_step _ _ _ _ _ _ _ _ _ _ Hrun Ea). rewrite K_prefix_0.
+      rewrite (strm_vw c2 c' nx K3 K4). reflexivity.
+  - (* next symbol *)
+    destruct P as (Ea & order' & P). destruct s; try exact I. cbn [postR] in P.
+    destruct P as (Pj & Pj' & Pg & (K1 & K2 & K3 & K4) & PJ & PY).
+    destruct n as [|n]; [lia|].
+    exists (syms ++ [a]), n. split.
+    + destruct (stat_fields c2 c' K1) as (_ & _ & _ & K9).
+      exists order'. split; [exact PJ|]. split; [apply (G_static_stat c); [congruence|exact GS]|].
+      split; [lia|]. split; [exact PY|]. split; [lia|].
+      rewrite K2, V2, K9, V9. split; [exact Et|]. split; [exact El|].
+      exists pad, T0, VBuilt. auto.
+    + rewrite (K_prefix_step _ _ _ _ _ _ _ _ _ _ Hrun Ea).
+      rewrite (strm_vw c2 c' nx K3 K4). reflexivity.
+  - (* overflow *)
+    unfold spec_fails.
+    destruct (run (K_prefix h selm tables g syms lens n) (strm c nx)) as [[rb r]|e] eqn:ER; [|exact I].
+    destruct (K_prefix_mtfv _ _ _ _ _ _ _ _ _ _ ER) as (l & ->).
+    destruct GY as (run & shift & size & acc & U & G1 & G2 & G3 & G4 & G5).
+    exists ErrOverflow. apply (post_over h tables syms l _ _ _ _ _ U). lia.
+  - (* end of block *)
+    destruct P as (Ea & PU & Pl & Pr & Pi & K3 & K4).
+    destruct n as [|n]; [lia|].
+    exists (mk_rb h tables (syms ++ [])). split.
+    { rewrite (K_prefix_eob _ _ _ _ _ _ _ _ _ _ Hrun Ea). rewrite (strm_vw c2 c' nx K3 K4). reflexivity. }
+    cbn [mk_rb rb_used rb_mtfv rb_rand rb_idx]. rewrite app_nil_r.
+    split; [exact PU|]. split; [exact Pl|]. rewrite Pr, Pi, V6, V7, S1, S2. split; reflexivity.
+  - contradiction.
+Qed.
+
+Print Assumptions unmtf_usteps.
+Print Assumptions usteps_app.
+Print Assumptions ref_group.
+Print Assumptions ref_prefix.
